@@ -20,19 +20,27 @@ RULE = ("schedules = random walks of I_IPAM (TLC -simulate: 3 clients on 2 hosts
 def run(ctx):
     q = ctx.quick
     # the model reproduces the suspected defect (FixIncr = FALSE must violate the quiescent handle agreement) ...
-    r = core.tlc("ipam", "MC_IPAM", "MC_c19_bug.cfg", workers=2, timeout=300)
-    if r.violated != "HandleAgreementQuiescent":
-        raise HarnessError("I_IPAM with the code's increment no longer violates HandleAgreementQuiescent: %s" % r.violated)
-    ctx.notes["model_reproduces_overcount"] = {"states": r.distinct}
+    if not q:
+        r = core.tlc("ipam", "MC_IPAM", "MC_c19_bug.cfg", workers=2, timeout=300)
+        if r.violated != "HandleAgreementQuiescent":
+            raise HarnessError("I_IPAM with the code's increment no longer violates HandleAgreementQuiescent: %s" % r.violated)
+        ctx.notes["model_reproduces_overcount"] = {"states": r.distinct}
     # ... and with the one-line repair the whole protocol satisfies P_IPAM
     design = [{"module": "MC_IPAM", "cfg": "MC_c19_quick.cfg", "thorough_cfg": "MC_c19.cfg", "workers": 4,
                "allow_zero": _ipam.ALLOW_ZERO, "timeout": 600, "thorough_timeout": 1700, "heap": "4g"}]
     P, _ = _ipam.leg(ctx, BASE, "tlc-schedules", design=design,
-                     gen={"module": "Gen_IPAM", "cfg": "Gen_sim_c19.cfg", "simulate": {"num": 120, "depth": 120},
-                          "thorough_simulate": {"num": 6000, "depth": 120}, "timeout": 600, "thorough_timeout": 1500},
+                     gen={"module": "Gen_IPAM", "cfg": "Gen_sim_c19.cfg", "simulate": {"num": 80, "depth": 120},
+                          "thorough_simulate": {"num": 4000, "depth": 120}, "timeout": 600, "thorough_timeout": 1500},
                      nontrivial=_ipam.overlapping, rule=RULE)
     _ipam.handle_soft(ctx, P)
     if ctx.violations:
+        return
+    if not q:
+      P, _ = _ipam.leg(ctx, BASE, "tlc-schedules-crash",
+                       gen={"module": "Gen_IPAM", "cfg": "Gen_sim_c19x.cfg", "simulate": {"num": 60, "depth": 120},
+                            "thorough_simulate": {"num": 3000, "depth": 120}, "timeout": 600, "thorough_timeout": 1500},
+                       nontrivial=_ipam.overlapping, rule=RULE)
+      if ctx.violations:
         return
     P, _ = _ipam.leg(ctx, BASE, "seeded-concurrent", n_random=(25, 1200), mode="conc", nontrivial=_ipam.overlapping, rule=RULE)
     _ipam.handle_soft(ctx, P)
